@@ -82,6 +82,22 @@ class World:
         self.events.append(("recycle", pid, "zombie" if zombie else "live", existed))
         return p
 
+    def become(self, pid):
+        """From now on the calling process is a freshly forked worker that the
+        kernel gave the (free) PID `pid`: os.getpid() == pid.  Objects built
+        earlier for a former owner of that PID travel with the fork."""
+        k = self.k
+        if pid in k.procs or pid in (0, 1):
+            return None
+        p = k.spawn(pid, comm=b"worker", ppid=k.self_pid, starttime=self._new_start())
+        for q in k.procs.values():
+            q.child = False   # the parent's children are not the worker's
+        k.self_pid = pid
+        self.recycled_pids.add(pid)
+        self.events.append(("recycle", pid, "live", False))
+        self.events.append(("became", pid))
+        return p
+
     def owner_inc(self, pid):
         p = self.k.procs.get(pid)
         return p.inc if p is not None else None
@@ -208,6 +224,7 @@ def table_ops():
         st.tuples(st.just("mkproc"), i, st.sampled_from([False, False, False, True, "popen-class",
                                                          "popen-class"])),
         st.tuples(st.just("mkproc"), i, st.just(False)),
+        st.tuples(st.just("become"), i),
     ]
 
 
